@@ -356,8 +356,18 @@ HERE = os.path.dirname(os.path.dirname(os.path.abspath(__file__)))
 FUZZ_TARGET = os.path.join(HERE, 'fuzz', 'fuzz_render.py')
 
 
+_CAMPAIGNS: dict = {}
+
+
 def run_campaign(seed: int, runs: int) -> dict:
     """one libFuzzer process on a fresh temporary corpus seeded from the qa messages and the witnesses"""
+    if (seed, runs) in _CAMPAIGNS:
+        return _CAMPAIGNS[(seed, runs)]
+    result = _CAMPAIGNS[(seed, runs)] = _run_campaign(seed, runs)
+    return result
+
+
+def _run_campaign(seed: int, runs: int) -> dict:
     work = tempfile.mkdtemp(prefix='c13-fuzz-')
     try:
         seeds = os.path.join(work, 'corpus')
@@ -422,9 +432,12 @@ def check_campaign(case: dict) -> dict:
 def campaign_cases():
     from hypothesis import strategies as st
 
+    argv = sys.argv
+    tier = argv[argv.index('--tier') + 1] if '--tier' in argv and argv.index('--tier') + 1 < len(argv) else os.environ.get('VERIF_TIER', 'quick')
+    if tier != 'thorough' and 'VERIF_C13_FUZZ_RUNS' not in os.environ:
+        return None  # `--examples N` in the quick tier must not start N campaigns
     runs = int(os.environ.get('VERIF_C13_FUZZ_RUNS', '150000'))  # development: a shorter campaign
     # Hypothesis starts from the simplest value: without the shard number every shard would run the same campaign
-    argv = sys.argv
     shard = int(argv[argv.index('--shard') + 1].split('/')[0]) if '--shard' in argv and argv.index('--shard') + 1 < len(argv) else 0
     return st.integers(0, 3).map(lambda i: {'seed': 1300 + 4 * shard + i, 'runs': runs})
 
